@@ -295,7 +295,7 @@ def finish(ctx: Ctx, spec: dict) -> int:
         "property_id": ctx.prop,
         "tier": ctx.tier,
         "seed": ctx.seed,
-        "level": "proof",
+        "level": spec.get("level", "proof"),
         "coverage": cov,
         "assumptions": spec.get("assumptions", []),
         "wall_s": ctx.t.s(),
